@@ -600,7 +600,7 @@ def relation_trace(tdgl, args, tmp):
         ev.append({"rel": "ident", "same": Q is P, "expect": inplace, "clause": "InplaceReturnsSelf", "what": what})
         if not inplace:
             ev.append({"rel": "same", "x": before, "y": _hash_ints(P.points), "clause": "NonInplaceNeverMutates", "what": what})
-        elif not (kind == "rotate" and deg % 360 == 0) and not (kind == "scale" and fx == 1 and fy == 1):
+        elif kind == "translate" and (dx or dy):      # (a rotation or reflection may map a symmetric outline onto itself)
             ev.append({"rel": "moved", "x": before, "y": _hash_ints(P.points), "clause": "non-vacuity (in place moved the shape)", "what": what})
         P = Q
         if P.area > 60 or max(P.extents) > 40:   # keep quantised areas far below 2^31
